@@ -101,37 +101,33 @@ Section FilterP.
     destruct (f r); [constructor; [lia|exact H]|exact H].
   Qed.
 
-  Lemma filter_next_none p : forall cs, filter_next fa envf p tt cs = None -> filter (rp p) (phys_rows cs) = [].
+  (** ** the operator before df57ccb: selects among the PHYSICAL rows of every chunk *)
+  Lemma filter_pre_none p : forall cs, filter_next_pre fa envf p tt cs = None -> filter (rp p) (phys_rows cs) = [].
   Proof.
     induction cs as [|c rest IH]; [reflexivity|].
-    cbn [filter_next]. destruct (sel_from_pred (rp p) 0 (c_rows c)) as [|i s] eqn:E; [|discriminate].
+    cbn [filter_next_pre]. destruct (sel_from_pred (rp p) 0 (c_rows c)) as [|i s] eqn:E; [|discriminate].
     intros H. rewrite phys_rows_cons, filter_app, (IH H), app_nil_r.
     rewrite <- sel_from_pred_rows0, E. reflexivity.
   Qed.
-  Lemma filter_next_some p : forall cs c u rest, filter_next fa envf p tt cs = Some (c, u, rest) ->
-    (length rest < length cs)%nat /\ filter (rp p) (phys_rows cs) = lrows c ++ filter (rp p) (phys_rows rest)
-    /\ chunk_wf c.
+  Lemma filter_pre_some p : forall cs c u rest, filter_next_pre fa envf p tt cs = Some (c, u, rest) ->
+    (length rest < length cs)%nat /\ filter (rp p) (phys_rows cs) = lrows c ++ filter (rp p) (phys_rows rest).
   Proof.
     induction cs as [|c0 rest0 IH]; intros c u rest; [discriminate|].
-    cbn [filter_next]. destruct (sel_from_pred (rp p) 0 (c_rows c0)) as [|i s] eqn:E.
-    - intros H. destruct (IH _ _ _ H) as (Hl & Hs & Hw). split; [cbn [length]; lia|]. split; [|exact Hw].
+    cbn [filter_next_pre]. destruct (sel_from_pred (rp p) 0 (c_rows c0)) as [|i s] eqn:E.
+    - intros H. destruct (IH _ _ _ H) as (Hl & Hs). split; [cbn [length]; lia|].
       rewrite phys_rows_cons, filter_app, Hs.
       rewrite <- (sel_from_pred_rows0 (rp p) (c_rows c0)), E. reflexivity.
-    - intros H. injection H as <- _ <-. split; [cbn [length]; lia|]. split.
-      + rewrite phys_rows_cons, filter_app. f_equal.
-        unfold lrows. cbn [c_sel c_rows]. rewrite <- E. symmetry. apply sel_from_pred_rows0.
-      + unfold chunk_wf. cbn [c_sel c_rows]. rewrite <- E.
-        eapply Forall_impl; [|apply (sel_from_pred_wf (rp p) (c_rows c0) 0)]. cbn beta. intros; lia.
+    - intros H. injection H as <- _ <-. split; [cbn [length]; lia|].
+      rewrite phys_rows_cons, filter_app. f_equal.
+      unfold lrows. cbn [c_sel c_rows]. rewrite <- E. symmetry. apply sel_from_pred_rows0.
   Qed.
-
-  (** the filter as written selects among the PHYSICAL rows of every chunk *)
-  Lemma filter_spec_phys_l p cs :
-    rows_of (drain_filter fa envf p cs) = filter (rp p) (phys_rows cs).
+  Lemma filter_pre_spec_phys_l p cs :
+    rows_of (drain_filter_pre fa envf p cs) = filter (rp p) (phys_rows cs).
   Proof.
-    unfold drain_filter.
-    apply (drain_st_spec (filter_next fa envf p) (fun _ _ => True) (fun _ cs => filter (rp p) (phys_rows cs))).
-    - intros [] cs0 _. apply filter_next_none.
-    - intros [] cs0 c [] rest _ H. destruct (filter_next_some _ _ _ _ _ H) as (A & B & _). auto.
+    unfold drain_filter_pre.
+    apply (drain_st_spec (filter_next_pre fa envf p) (fun _ _ => True) (fun _ cs => filter (rp p) (phys_rows cs))).
+    - intros [] cs0 _. apply filter_pre_none.
+    - intros [] cs0 c [] rest _ H. destruct (filter_pre_some _ _ _ _ _ H) as (A & B). auto.
     - exact I.
     - apply fuel_of_gt.
   Qed.
@@ -142,26 +138,15 @@ Section FilterP.
     apply andb_true_iff in H as [H1 H2]. rewrite phys_rows_cons, rows_of_cons, (IH H2).
     unfold lrows. destruct (c_sel c); [discriminate|reflexivity].
   Qed.
+  Lemma filter_pre_spec_l p cs : sel_free cs = true ->
+    rows_of (drain_filter_pre fa envf p cs) = filter (rp p) (rows_of cs).
+  Proof. intros H. rewrite filter_pre_spec_phys_l, (sel_free_phys cs H). reflexivity. Qed.
 
-  Lemma filter_spec_l p cs : sel_free cs = true ->
-    rows_of (drain_filter fa envf p cs) = filter (rp p) (rows_of cs).
-  Proof. intros H. rewrite filter_spec_phys_l, (sel_free_phys cs H). reflexivity. Qed.
-
-  Lemma filter_out_wf p cs : Forall chunk_wf (drain_filter fa envf p cs).
-  Proof.
-    unfold drain_filter.
-    apply (drain_st_all (filter_next fa envf p) (fun _ _ => True) (fun _ cs => filter (rp p) (phys_rows cs))).
-    - intros [] cs0 c [] rest _ H. destruct (filter_next_some _ _ _ _ _ H) as (A & B & _). auto.
-    - intros [] cs0 c [] rest _ H. destruct (filter_next_some _ _ _ _ _ H) as (_ & _ & W). exact W.
-    - exact I.
-  Qed.
-
-  (** the repaired filter (selected rows only) meets the specification on every well-formed input *)
+  (** ** the operator as it is now: selects among the LOGICAL rows *)
   Lemma sel_filter_rows (f : row -> bool) rows s :
-    sel_rows rows (filter (fun i => match nth_error rows (Z.to_nat i) with Some r => f r | None => false end) s)
-    = filter f (sel_rows rows s).
+    sel_rows rows (sel_filter f rows s) = filter f (sel_rows rows s).
   Proof.
-    induction s as [|i s IH]; [reflexivity|].
+    unfold sel_filter. induction s as [|i s IH]; [reflexivity|].
     unfold sel_rows in *. cbn [filter flat_map].
     destruct (nth_error rows (Z.to_nat i)) as [r|] eqn:E.
     - cbn [app filter]. destruct (f r).
@@ -169,47 +154,99 @@ Section FilterP.
       + exact IH.
     - cbn [app]. exact IH.
   Qed.
-
-  Lemma filter_fixed_sel p c :
-    lrows (mkChunk (c_rows c)
-             (Some match c_sel c with
-                   | None => sel_from_pred (rp p) 0 (c_rows c)
-                   | Some s => filter (fun i => match nth_error (c_rows c) (Z.to_nat i) with
-                                                | Some r => rp p r | None => false end) s
-                   end)) = filter (rp p) (lrows c).
+  Lemma sel_filter_wf (f : row -> bool) rows s :
+    Forall (fun i => 0 <= i < Z.of_nat (length rows)) s ->
+    Forall (fun i => 0 <= i < Z.of_nat (length rows)) (sel_filter f rows s).
   Proof.
-    unfold lrows. cbn [c_sel c_rows]. destruct (c_sel c) as [s|].
+    unfold sel_filter. intros H. apply Forall_forall. intros i Hi.
+    apply filter_In in Hi as [Hi _]. rewrite Forall_forall in H. now apply H.
+  Qed.
+  Lemma sel_filter_length (f : row -> bool) rows s : (length (sel_filter f rows s) <= length s)%nat.
+  Proof.
+    unfold sel_filter. induction s as [|i s IH]; [cbn; lia|].
+    cbn [filter]. destruct (match nth_error rows (Z.to_nat i) with Some r => f r | None => false end); cbn [length]; lia.
+  Qed.
+  Lemma sel_from_pred_length (f : row -> bool) rows : forall i, (length (sel_from_pred f i rows) <= length rows)%nat.
+  Proof.
+    induction rows as [|r t IH]; intros i; [cbn; lia|].
+    cbn [sel_from_pred length]. specialize (IH (i + 1)). destruct (f r); cbn [length]; lia.
+  Qed.
+
+  Lemma filter_sel_rows p c :
+    lrows (mkChunk (c_rows c) (Some (filter_sel fa envf p c))) = filter (rp p) (lrows c).
+  Proof.
+    unfold lrows, filter_sel. cbn [c_sel c_rows]. destruct (c_sel c) as [s|].
     - apply sel_filter_rows.
     - apply sel_from_pred_rows0.
   Qed.
+  Lemma filter_sel_wf p c : chunk_wf c -> chunk_wf (mkChunk (c_rows c) (Some (filter_sel fa envf p c))).
+  Proof.
+    unfold chunk_wf, filter_sel. cbn [c_sel c_rows]. destruct (c_sel c) as [s|].
+    - apply sel_filter_wf.
+    - intros _. eapply Forall_impl; [|apply (sel_from_pred_wf (rp p) (c_rows c) 0)]. cbn beta. intros; lia.
+  Qed.
+  Lemma filter_sel_count p c :
+    row_count (mkChunk (c_rows c) (Some (filter_sel fa envf p c))) <= row_count c.
+  Proof.
+    unfold row_count, filter_sel. cbn [c_sel c_rows]. destruct (c_sel c) as [s|].
+    - pose proof (sel_filter_length (rp p) (c_rows c) s). lia.
+    - pose proof (sel_from_pred_length (rp p) (c_rows c) 0). lia.
+  Qed.
 
-  Lemma filter_fixed_none p : forall cs, filter_next_fixed fa envf p tt cs = None -> filter (rp p) (rows_of cs) = [].
+  Lemma filter_next_none p : forall cs, filter_next fa envf p tt cs = None -> filter (rp p) (rows_of cs) = [].
   Proof.
     induction cs as [|c rest IH]; [reflexivity|].
-    cbn [filter_next_fixed]. intros H. rewrite rows_of_cons, filter_app.
-    rewrite <- (filter_fixed_sel p c). unfold lrows at 1. cbn [c_sel c_rows].
-    destruct (match c_sel c with None => _ | Some s => _ end) as [|i s'] eqn:E; [|discriminate].
+    cbn [filter_next]. intros H. rewrite rows_of_cons, filter_app.
+    rewrite <- (filter_sel_rows p c). unfold lrows at 1. cbn [c_sel c_rows].
+    destruct (filter_sel fa envf p c) as [|i s'] eqn:E; [|discriminate].
     cbn. apply IH, H.
   Qed.
-  Lemma filter_fixed_some p : forall cs c u rest, filter_next_fixed fa envf p tt cs = Some (c, u, rest) ->
-    (length rest < length cs)%nat /\ filter (rp p) (rows_of cs) = lrows c ++ filter (rp p) (rows_of rest).
+  Lemma filter_next_some p : forall cs c u rest, filter_next fa envf p tt cs = Some (c, u, rest) ->
+    (length rest < length cs)%nat /\ filter (rp p) (rows_of cs) = lrows c ++ filter (rp p) (rows_of rest)
+    /\ (exists c0, In c0 cs /\ c = mkChunk (c_rows c0) (Some (filter_sel fa envf p c0)))
+    /\ (forall x, In x rest -> In x cs).
   Proof.
     induction cs as [|c0 rest0 IH]; intros c u rest; [discriminate|].
-    cbn [filter_next_fixed]. intros H. rewrite rows_of_cons, filter_app.
-    rewrite <- (filter_fixed_sel p c0).
-    destruct (match c_sel c0 with None => _ | Some s => _ end) as [|i s'] eqn:E.
-    - destruct (IH _ _ _ H) as (Hl & Hs). split; [cbn [length]; lia|]. rewrite Hs. reflexivity.
-    - injection H as <- _ <-. split; [cbn [length]; lia|]. reflexivity.
+    cbn [filter_next]. intros H. rewrite rows_of_cons, filter_app.
+    rewrite <- (filter_sel_rows p c0).
+    destruct (filter_sel fa envf p c0) as [|i s'] eqn:E.
+    - destruct (IH _ _ _ H) as (Hl & Hs & (x & Hx & Hc) & Hr). split; [cbn [length]; lia|]. split; [rewrite Hs; reflexivity|].
+      split; [exists x; split; [now right|exact Hc]|]. intros y Hy. right. now apply Hr.
+    - injection H as <- _ <-. split; [cbn [length]; lia|]. split; [reflexivity|].
+      split; [exists c0; split; [now left|now rewrite E]|]. intros y Hy. now right.
   Qed.
-  Lemma filter_fixed_spec_l p cs :
-    rows_of (drain_filter_fixed fa envf p cs) = filter (rp p) (rows_of cs).
+  Lemma filter_spec_l p cs :
+    rows_of (drain_filter fa envf p cs) = filter (rp p) (rows_of cs).
   Proof.
-    unfold drain_filter_fixed.
-    apply (drain_st_spec (filter_next_fixed fa envf p) (fun _ _ => True) (fun _ cs => filter (rp p) (rows_of cs))).
-    - intros [] cs0 _. apply filter_fixed_none.
-    - intros [] cs0 c [] rest _ H. destruct (filter_fixed_some _ _ _ _ _ H). auto.
+    unfold drain_filter.
+    apply (drain_st_spec (filter_next fa envf p) (fun _ _ => True) (fun _ cs => filter (rp p) (rows_of cs))).
+    - intros [] cs0 _. apply filter_next_none.
+    - intros [] cs0 c [] rest _ H. destruct (filter_next_some _ _ _ _ _ H) as (A & B & _). auto.
     - exact I.
     - apply fuel_of_gt.
+  Qed.
+
+  (** every chunk the filter emits is an input chunk with a narrowed selection: well-formedness
+      and the 2048-row bound are preserved (so Limit / Skip / Distinct above a Filter are within
+      their theorems' hypotheses) *)
+  Lemma filter_out_all (Q : chunk -> Prop) p cs :
+    (forall c, Q c -> Q (mkChunk (c_rows c) (Some (filter_sel fa envf p c)))) ->
+    Forall Q cs -> Forall Q (drain_filter fa envf p cs).
+  Proof.
+    intros HQ W. unfold drain_filter.
+    apply (drain_st_all (filter_next fa envf p) (fun _ cs => Forall Q cs) (fun _ cs => filter (rp p) (rows_of cs))).
+    - intros [] cs0 c [] rest W0 H. destruct (filter_next_some _ _ _ _ _ H) as (A & B & _ & D).
+      split; [|auto]. apply Forall_forall. intros x Hx. rewrite Forall_forall in W0. apply W0, D, Hx.
+    - intros [] cs0 c [] rest W0 H. destruct (filter_next_some _ _ _ _ _ H) as (_ & _ & (x & Hx & ->) & _).
+      apply HQ. rewrite Forall_forall in W0. now apply W0.
+    - exact W.
+  Qed.
+  Lemma filter_out_wf p cs : Forall chunk_wf cs -> Forall chunk_wf (drain_filter fa envf p cs).
+  Proof. apply filter_out_all. intros c. apply filter_sel_wf. Qed.
+  Lemma filter_out_small p cs : Forall small_chunk cs -> Forall small_chunk (drain_filter fa envf p cs).
+  Proof.
+    apply filter_out_all. intros c [W L]. split; [now apply filter_sel_wf|].
+    pose proof (filter_sel_count p c). lia.
   Qed.
 End FilterP.
 
